@@ -177,6 +177,15 @@ pub fn fq4_alpha(tier: Tier, seed: u64) -> Vec<F12> {
         }
         v.push(f);
     }
+    // all four coefficients with STORED value q-1-i: the four-term accumulator reaches its top band
+    let ri = rinv(p);
+    for j in 0..tier.pick(10u64, 24) {
+        let mut f = F12::zero();
+        for k in 0..4u64 {
+            f.0[3 * k as usize] = mulm(&(p - n(1) - n((j * 5 + k * 3) % 23)), &ri, p);
+        }
+        v.push(f);
+    }
     let mut seen = std::collections::HashSet::new();
     v.retain(|f| seen.insert(f.clone()));
     v
@@ -241,7 +250,10 @@ pub fn fq4_unary(a: &F12) -> Result<u32, Bad> {
     chk4("scale_fq", &lib("Fq4 scale_fq", || la.scale_fq(&h::fq_in(fq(&s1))))?, &a.mul(&F12::from_fq(&s1)), &ctx)?;
     Ok(k + 2)
 }
-const U4: [&str; 3] = ["four-term-sum:u4=0", "four-term-sum:u4=1", "four-term-sum:u4=2"];
+const U4: [&str; 6] = [
+    "four-term-sum:u4=0", "four-term-sum:u4=1", "four-term-sum:u4=2",
+    "four-term-sum:u4>=1,low<q-after-folding", "four-term-sum:u4>=1,extra-subtraction", "four-term-sum:u4=0,low>=q",
+];
 fn u4_class4(a: &F12, b: &F12) -> u32 {
     // c0.c0 = a00 b00 - 2 a01 b01 - 2 a10 b11 - 2 a11 b10 on the stored (Montgomery) values
     let p = q();
@@ -259,9 +271,34 @@ fn u4_class4(a: &F12, b: &F12) -> u32 {
     let mut c = 0;
     for s in sums {
         let m = (&s * &pinv_neg) % &t256;
-        let u: N = (&s + &m * p) >> 512;
-        let k = if u.is_zero() { 0 } else if u.is_one() { 1 } else { 2 };
+        let u: N = (&s + &m * p) >> 256;
+        let u4: N = &u >> 256;
+        let low: N = &u % &t256;
+        let k = if u4.is_zero() { 0 } else if u4.is_one() { 1 } else { 2 };
         c |= 1 << k;
+        if k == 0 {
+            if &low >= p {
+                c |= 1 << 5;
+            }
+        } else {
+            // each add_carry brings the value into [2^256-q, 2^256); the last one decides whether the final
+            // conditional subtraction fires
+            let fin = (&u % p + p) % p; // canonical result
+            let _ = fin;
+            let after = {
+                let mut v = low.clone();
+                for _ in 0..k {
+                    // v + 2^256 - j q with the smallest j giving a value < 2^256
+                    let mut t = &v + &t256;
+                    while t >= t256 {
+                        t -= p;
+                    }
+                    v = t;
+                }
+                v
+            };
+            if &after >= p { c |= 1 << 4 } else { c |= 1 << 3 }
+        }
     }
     c
 }
